@@ -780,6 +780,9 @@ type hnRun struct {
 	okResp   int
 	nfaults  int
 	qlog     *hnQLog
+	// idleDeaths: operations that failed because the connection idled out
+	// although its whole idle period lay after the heal (see excused)
+	idleDeaths []string
 }
 
 func (r *hnRun) setViol(v *vs.Violation) {
@@ -847,6 +850,15 @@ func (r *hnRun) excused(i int, side string) (bool, string) {
 	}
 	if st := r.connState(); hnTimeoutDeath(st) && r.p.cfg != "clean" {
 		vs.G.Inc("run.conn_died_" + st)
+		// An idle timeout whose whole idle period lies after the heal is judged like
+		// one on the fault-free network (see the clean configuration): both
+		// endpoints were alive, an operation was pending, and the scripts never
+		// pause that long.
+		if at := r.sim.Elapsed(); st == "idle_timeout" && at >= r.p.faults.HealAt+r.p.cli.idle {
+			r.mu.Lock()
+			r.idleDeaths = append(r.idleDeaths, fmt.Sprintf("request %d (%s) at %v", i, side, at))
+			r.mu.Unlock()
+		}
 		return true, st
 	}
 	return false, ""
@@ -1545,6 +1557,12 @@ func hnRunC34(t *testing.T, rt *rapid.T) {
 				r.mu.Unlock()
 				viol = vs.Violf("C34", "liveness", "net:stuck_after_heal:"+hnStuckSig(pending), "%v of simulated time after the network healed (at %v) these tasks have not finished (connection %s, %d datagrams in flight): %v\n%s", 120*time.Second, p.faults.HealAt, state, pnet.InFlight(), pending, strings.Join(logs, "\n"))
 			}
+		}
+		r.mu.Lock()
+		idleDeaths := r.idleDeaths
+		r.mu.Unlock()
+		if viol == nil && len(idleDeaths) > 0 {
+			viol = vs.Violf("C34", "liveness", "net:idle_death_after_heal", "the connection idled out (no packet for %v) entirely after the network healed at %v while exchanges were pending: %v", p.cli.idle, p.faults.HealAt, idleDeaths)
 		}
 		if viol == nil && hnTimeoutDeath(state) {
 			if cfg == "clean" {
